@@ -2,6 +2,7 @@
 from __future__ import annotations
 
 import base64
+import binascii
 import quopri
 from abc import abstractmethod, ABCMeta
 from email.headerregistry import ContentTransferEncodingHeader
@@ -64,7 +65,8 @@ class MessageDecoder(metaclass=ABCMeta):
         elif hdr_str == 'base64':
             return _Base64Decoder()
         else:
-            raise NotImplementedError(hdr_str)
+            from ..exceptions import UnknownCTE
+            raise UnknownCTE()
 
     @abstractmethod
     def decode(self, body: MessageBody) -> Writeable:
@@ -95,5 +97,9 @@ class _Base64Decoder(MessageDecoder):
 
     def decode(self, body: MessageBody) -> Writeable:
         raw = bytes(body)
-        ret = base64.b64decode(raw)
+        try:
+            ret = base64.b64decode(raw)
+        except binascii.Error as exc:
+            from ..exceptions import UnknownCTE
+            raise UnknownCTE('Malformed base64 content.') from exc
         return Writeable.wrap(ret)
